@@ -23,10 +23,8 @@ const typename ReadingT::SensorJacobianT H =
 {% endif %}  // clang-format on
                                     reading);
 
-// Project State Noise into Sensor Space
-// S = H * Sigma * H.T + Q_t
-const typename ReadingT::CovarianceT sensor_estimate_covariance =
-    H * Sigma.data * H.transpose() +
+// Q_t = reading noise
+const typename ReadingT::CovarianceT Q =
     ReadingT::SensorModel::covariance(state,
                                       // clang-format off
 {% if enable_calibration %}
@@ -35,6 +33,11 @@ const typename ReadingT::CovarianceT sensor_estimate_covariance =
                                       // clang-format off
 {% endif %}  // clang-format on
                                       reading);
+
+// Project State Noise into Sensor Space
+// S = H * Sigma * H.T + Q_t
+const typename ReadingT::CovarianceT sensor_estimate_covariance =
+    H * Sigma.data * H.transpose() + Q;
 
 // S_inv = inverse(S)
 const typename ReadingT::CovarianceT S_inv =
@@ -65,9 +68,14 @@ State next_state;
 next_state.data = mu.data + kalman_gain * innovation;
 
 // Update Covariance
-// next_covariance = Sigma - K * H * Sigma
+// next_covariance = (I - K * H) * Sigma * (I - K * H).T + K * Q * K.T
+// (Joseph form: equal to Sigma - K * H * Sigma, symmetric and positive
+// semi-definite by construction)
+const typename Covariance::DataT I_KH =
+    Covariance::DataT::Identity() - kalman_gain * H;
 Covariance next_covariance;
-next_covariance.data = Sigma.data - kalman_gain * H * Sigma.data;
+next_covariance.data = I_KH * Sigma.data * I_KH.transpose() +
+                       kalman_gain * Q * kalman_gain.transpose();
 
 // TODO(buck): Measurement Likelihood (optional)
 
